@@ -31,9 +31,11 @@ pub enum Label {
     MapVal,
     TypeArg,
     Compact,
+    /// `P<B>` where `P<T> { raw: u64, m: PhantomData<T> }`: B is mentioned only as an unused generic argument
+    PhantomArg,
 }
 
-pub const LABELS: [Label; 9] = [
+pub const LABELS: [Label; 10] = [
     Label::Direct,
     Label::Boxed,
     Label::Vec,
@@ -43,6 +45,7 @@ pub const LABELS: [Label; 9] = [
     Label::MapVal,
     Label::TypeArg,
     Label::Compact,
+    Label::PhantomArg,
 ];
 
 impl Label {
@@ -60,7 +63,8 @@ pub struct GraphState {
 }
 
 pub const GD_H: usize = 0; // H<T> { g: T }
-pub const GD_FIRST: usize = 1;
+pub const GD_P: usize = 1; // P<T> { raw: u64, m: PhantomData<T> }
+pub const GD_FIRST: usize = 2;
 
 impl GraphState {
     pub fn node_ty(&self, i: usize) -> Ty {
@@ -71,7 +75,15 @@ impl GraphState {
     }
 
     pub fn program(&self) -> Program {
-        let mut defs = vec![Def::strukt(&["g", "h"], "H", &["T"], named(vec![("g", Ty::Param(0))]))];
+        let mut defs = vec![
+            Def::strukt(&["g", "h"], "H", &["T"], named(vec![("g", Ty::Param(0))])),
+            Def::strukt(
+                &["g", "h"],
+                "P",
+                &["T"],
+                named(vec![("raw", Ty::Prim(Prim::U64)), ("m", Ty::Phantom(b(Ty::Param(0))))]),
+            ),
+        ];
         for (i, k) in self.nodes.iter().enumerate() {
             let module: Vec<String> = vec!["g".into(), format!("m{}", i % 2)];
             let name = format!("T{i}");
@@ -94,6 +106,7 @@ impl GraphState {
                     Label::MapVal => Ty::BTreeMap(b(U8), b(t)),
                     Label::TypeArg => Ty::Named(GD_H, vec![t]),
                     Label::Compact => t,
+                    Label::PhantomArg => Ty::Named(GD_P, vec![t]),
                 };
                 fields.push((
                     format!("e{k_e}"),
